@@ -730,7 +730,9 @@ def clause_lemma(ctx, name, setup, hyps, goals, where="lemma", use=()):
     env = setup(sfac)
     fr = Frame(None, env, None)
     ex.frames.append(fr)
-    hs = []
+    # facts assumed while the set-up executed real code (postconditions of callee contracts applied at call sites,
+    # explicit assumptions of the set-up) are hypotheses of the lemma: the values in `env` were computed under them
+    hs = [h for h in ex.pc if is_z3(h)]
     pre_obs = []
     for h in hyps:
         cl = h[1] if isinstance(h, tuple) else h
